@@ -533,6 +533,15 @@ type Query struct {
 	Lines []Line
 	Goal  *Term // to be proved (negated in the script); nil means "check satisfiability of the lines" (cover)
 	Reveal map[string]bool
+	Lemmas []*LemmaInst
+}
+
+// LemmaInst: a proved lemma instantiated by the generator at every ground application of its trigger symbol.
+type LemmaInst struct {
+	Name    string
+	Params  []BVar
+	Trigger *Term // application of an uninterpreted symbol to exactly the parameters
+	Body    *Term
 }
 
 func sortAtoms(s Sort, set map[Sort]bool) {
@@ -827,6 +836,86 @@ func (q *Query) Render(produceModels bool) string {
 		}
 		b.WriteString("\n")
 	}
+	// valid theory instances for single-character containment (helps connect str.contains with position quantifiers)
+	hints := map[string]bool{}
+	var collect func(t *Term, bound map[string]bool)
+	collect = func(t *Term, bound map[string]bool) {
+		if t == nil {
+			return
+		}
+		if t.Kind == KQuant {
+			nb := map[string]bool{}
+			for k := range bound {
+				nb[k] = true
+			}
+			for _, v := range t.Bound {
+				nb[v.Name] = true
+			}
+			collect(t.Args[0], nb)
+			return
+		}
+		if t.Kind == KApp && t.Op == "str.contains" && t.Args[1].Kind == KStrLit && len(t.Args[1].Str) == 1 && !mentionsBound(t.Args[0], bound) {
+			x, c := t.Args[0].String(), t.Args[1].String()
+			hints[fmt.Sprintf("(assert (=> (str.contains %s %s) (and (<= 0 (str.indexof %s %s 0)) (< (str.indexof %s %s 0) (str.len %s)) (= (str.at %s (str.indexof %s %s 0)) %s))))", x, c, x, c, x, c, x, x, x, c, c)] = true
+		}
+		for _, a := range t.Args {
+			collect(a, bound)
+		}
+	}
+	collect(q.Goal, nil)
+	for i, l := range q.Lines {
+		if included[i] && l.Kind == LAssume {
+			collect(l.T, nil)
+		}
+	}
+	for _, lm := range q.Lemmas {
+		seenInst := map[string]bool{}
+		var find func(t *Term, bound map[string]bool)
+		find = func(t *Term, bound map[string]bool) {
+			if t == nil {
+				return
+			}
+			if t.Kind == KQuant {
+				nb := map[string]bool{}
+				for k := range bound {
+					nb[k] = true
+				}
+				for _, v := range t.Bound {
+					nb[v.Name] = true
+				}
+				find(t.Args[0], nb)
+				return
+			}
+			if t.Kind == KApp && t.Op == lm.Trigger.Op && len(t.Args) == len(lm.Trigger.Args) && !mentionsBound(t, bound) {
+				m := map[string]*Term{}
+				for i, a := range lm.Trigger.Args {
+					m[a.Op] = t.Args[i]
+				}
+				inst := lm.Body.subst(m).String()
+				if !seenInst[inst] {
+					seenInst[inst] = true
+					hints["(assert "+inst+") ; instance of lemma "+lm.Name] = true
+				}
+			}
+			for _, a := range t.Args {
+				find(a, bound)
+			}
+		}
+		find(q.Goal, nil)
+		for i, l := range q.Lines {
+			if included[i] && l.T != nil {
+				find(l.T, nil)
+			}
+		}
+	}
+	var hl []string
+	for h := range hints {
+		hl = append(hl, h)
+	}
+	sort.Strings(hl)
+	for _, h := range hl {
+		b.WriteString(h + "\n")
+	}
 	if q.Goal != nil {
 		b.WriteString("(assert (not ")
 		q.Goal.write(&b)
@@ -837,4 +926,19 @@ func (q *Query) Render(produceModels bool) string {
 		b.WriteString("(get-model)\n")
 	}
 	return b.String()
+}
+
+func mentionsBound(t *Term, bound map[string]bool) bool {
+	if t == nil || len(bound) == 0 {
+		return false
+	}
+	if t.Kind == KApp && len(t.Args) == 0 && bound[t.Op] {
+		return true
+	}
+	for _, a := range t.Args {
+		if mentionsBound(a, bound) {
+			return true
+		}
+	}
+	return false
 }
